@@ -1,7 +1,7 @@
 """C03 -- $or / $and / $and_any_order compose as alternation / sequence / permutation."""
 from ..tmplcheck import family_results, report
 
-FLOORS = {"C03.A1.alternation": 50, "C03.A1.sealed": 80, "C03.A2.sequence": 200, "C03.A3.permutations": 30,
+FLOORS = {"C03.Q.searched-stream-is-this-operations": 2, "C03.A1.alternation": 50, "C03.A1.sealed": 80, "C03.A2.sequence": 200, "C03.A3.permutations": 30,
           "C03.E.child-embedded-once": 1000}
 
 
@@ -36,3 +36,6 @@ def run(ctx) -> None:
     from ..streamshapes import witnesses
     if ctx.tier == "thorough" or ('ops', 'opnd', 'nest'):
         witnesses(ctx, _mkw(ctx.p), "C03.W.canonical-witness-is-found", tags=('ops', 'opnd', 'nest') if ctx.tier != "thorough" or "C03" != "C07" else ())
+    # Q: the regex is searched in the stream of this operation's own listing (nothing carried over from an earlier operation)
+    from ._matchrules import stream_per_run
+    stream_per_run(ctx, "C03.Q.searched-stream-is-this-operations")
